@@ -670,3 +670,11 @@ Theorem C08_model_is_source_V1_step : forall g d orc s,
   prog_eq (to_prog (src_V1_step g d s)) (step_prog g d orc BV1 s).
 Proof. exact src_V1_step_is_model. Qed.
 Print Assumptions C08_model_is_source_V1_step.
+
+(* _reconstruct_Mu(clip): the early return without data, the three gathers per term, row sums, the optional clip *)
+Theorem C08_model_is_source_reconstruct_Mu : forall g d clip s,
+  length (d_cl d) = nobs d -> length (d_dd1 d) = nobs d -> length (d_dd2 d) = nobs d ->
+  shape2 (W s) (c_ncl g) (c_D g) -> shape2 (V2 s) (c_ndd g) (c_D g) -> shape2 (V1 s) (c_ndd g) (c_D g) ->
+  src_reconstruct_Mu g d clip s = GRet (reconstruct_Mu g d clip s).
+Proof. exact src_reconstruct_Mu_is_model. Qed.
+Print Assumptions C08_model_is_source_reconstruct_Mu.
